@@ -477,7 +477,12 @@ Definition resolve_url (l : lib) (o : option aval) : outcome N :=
 
 Definition first_kid (e : et) : option et := hd_error (ekids e).
 
-Definition load_light (numtab : list N) (e : et) : outcome V :=
+Record light_view := mkLight { l_uid : N; l_id : option aval; l_kind : atom; l_color : list N; l_params : list (option N) }.
+Definition Vlight (l : light_view) : V :=
+  Vl [Vn (l_uid l); Voaval (l_id l); Vn (l_kind l); Vl (map Vn (l_color l)); Vl (map (Vopt Vn) (l_params l))].
+
+(* Light.load and the four class loaders *)
+Definition load_light_t (numtab : list N) (e : et) : outcome light_view :=
   match efind a_technique_common e with
   | None => Raise DaeIncomplete
   | Some tec =>
@@ -508,7 +513,54 @@ Definition load_light (numtab : list N) (e : et) : outcome V :=
                      obind (f a_quadratic_attenuation) (fun q => obind (f a_falloff_angle) (fun a =>
                      obind (f a_falloff_exponent) (fun x => Ok [c; l; q; a; x])))))
                    else Ok []) (fun params =>
-            Ok (Vl [Vn (euid e); Voaval (eattr a_id e); Vn k; Vl (map Vn color); Vl (map (Vopt Vn) params)])))
+            Ok (mkLight (euid e) (eattr a_id e) k color params)))
+          end
+        end
+      end
+    end
+  end.
+Definition load_light (numtab : list N) (e : et) : outcome V := omap Vlight (load_light_t numtab e).
+
+(* SPEC: a light as the file says it.  The kind is the element under technique_common (one of four); the
+   colour its <color>; the parameters of the kind, in a fixed order, each either the number in the element
+   of that name or absent (pycollada's None: the COLLADA default applies) *)
+Definition light_kinds : list atom := [a_directional; a_point; a_ambient; a_spot].
+Definition light_param_names (k : atom) : list atom :=
+  if N.eqb k a_point then [a_constant_attenuation; a_linear_attenuation; a_quadratic_attenuation; a_zfar]
+  else if N.eqb k a_spot then [a_constant_attenuation; a_linear_attenuation; a_quadratic_attenuation;
+                               a_falloff_angle; a_falloff_exponent]
+  else [].
+Definition read_opt_float (numtab : list N) (o : option et) : option (option N) :=
+  match o with
+  | None => Some None
+  | Some n => match etext n with Some [x] => option_map Some (cls numtab x) | _ => None end
+  end.
+Definition read_light (numtab : list N) (e : et) : option light_view :=
+  match efind a_technique_common e with
+  | None => None
+  | Some tec =>
+    match first_kid tec with
+    | None => None
+    | Some ln =>
+      match eown ln with
+      | None => None
+      | Some k =>
+        if negb (existsb (N.eqb k) light_kinds) then None else
+        match efind_path [a_technique_common; k] e with
+        | None => None
+        | Some pnode =>
+          match efind a_color pnode with
+          | None => None
+          | Some cn =>
+            match etext cn with
+            | None => None
+            | Some l =>
+              match classes numtab l,
+                    all_some (map (fun nme => read_opt_float numtab (efind nme pnode)) (light_param_names k)) with
+              | Some color, Some params => Some (mkLight (euid e) (eattr a_id e) k color params)
+              | _, _ => None
+              end
+            end
           end
         end
       end
@@ -1144,6 +1196,7 @@ Section Document.
   (* MODEL or SPEC versions of the three interesting loaders *)
   Variable geometry_loader : et -> outcome geom_view.
   Variable node_loader : env -> et -> outcome nview.
+  Variable light_loader : et -> outcome V.
 
   Definition load_document (root : et) : outcome doc :=
     obind (omapM load_image (lib_elems a_library_images a_image root)) (fun imgs =>
@@ -1156,7 +1209,7 @@ Section Document.
     obind (omapM geometry_loader (geometry_elems root)) (fun geoms =>
     obind (omapM (load_controller numtab) (lib_elems a_library_controllers a_controller root)) (fun ctrls0 =>
     let ctrls := flat_map (fun o => match o with Some c => [c] | None => [] end) ctrls0 in
-    obind (omapM (load_light numtab) (lib_elems a_library_lights a_light root)) (fun lights =>
+    obind (omapM light_loader (lib_elems a_library_lights a_light root)) (fun lights =>
     obind (omapM (load_camera numtab) (lib_elems a_library_cameras a_camera root)) (fun cams =>
     let vid (v : V) : option aval * N :=
         match v with
@@ -1182,7 +1235,7 @@ End Document.
 
 (* MODEL: the loader's algorithms *)
 Definition load_doc (numtab : list N) (root : et) : outcome V :=
-  omap Vdoc (load_document numtab (load_geometry numtab) load_node root).
+  omap Vdoc (load_document numtab (load_geometry numtab) load_node (load_light numtab) root).
 
 (* SPEC: the same walk with the declarative readings of geometry (direct indexing, per-semantic
    inputs, normalisations only) and of nodes ([read_node] gives the value; whether a top-level node
@@ -1194,5 +1247,7 @@ Definition read_node_loader (en : env) (e : et) : outcome nview :=
   | Ok _ => match read_node en e with Some w => Ok w | None => Raise OutOfFuel end
   | Raise x => Raise x
   end.
+Definition read_light_loader (numtab : list N) (e : et) : outcome V :=
+  omap Vlight (of_option PyOther (read_light numtab e)).
 Definition read_doc (numtab : list N) (root : et) : outcome V :=
-  omap Vdoc (load_document numtab (read_geometry_loader numtab) read_node_loader root).
+  omap Vdoc (load_document numtab (read_geometry_loader numtab) read_node_loader (read_light_loader numtab) root).
